@@ -88,6 +88,23 @@ impl PathSelector {
         })
     }
 
+    /// Like `matches_dir`, for a walk that follows symbolic links.
+    /// The files reached through the links in the directory are matched by the paths of the
+    /// link targets, which can be anywhere. So the directory may lead to matching files also
+    /// when its own path cannot be the beginning of any included path; only the exclude filters
+    /// ending with `**` pattern can rule it out.
+    pub fn matches_dir_following_links(&self, path: &Path) -> bool {
+        self.with_absolute_path(path, |path| {
+            let mut path = path.to_string_lossy();
+            if !path.ends_with(MAIN_SEPARATOR) {
+                path.push(MAIN_SEPARATOR);
+            }
+            self.excluded_paths
+                .iter()
+                .all(|p| !p.matches_subtree(&path))
+        })
+    }
+
     /// Executes given code with a reference to an absolute path.
     /// If `path` is already absolute, a direct reference is provided and no allocations happen.
     /// If `path` is relative, it would be appended to the `self.base_path` first and a reference
